@@ -22,6 +22,9 @@ nts_4x / nts_2x(ring, topology, dc_rf, start)   NetworkTopologyStrategy, the 3.x
                                             formulation and the 2.x ``skippedDcEndpoints`` formulation
 natural_endpoints_at(ring, topology, strategy_class, options, start_index)
                                             same for the range ending at ring index start_index
+natural_replicas_at(...) -> [(endpoint, is_full)]   Cassandra 4 placement order with the full/transient mark
+full_endpoints_at(...) / full_endpoints(..., token)   only the FULL replicas: per DC (NTS) / overall (Simple) the last
+                                            `transient` replicas chosen are the transient ones
 natural_endpoints(ring, topology, strategy_class, options, token)
                                             ordered list of endpoints for the range containing `token`; runs both
                                             formulations and raises ReferenceDisagreement when they differ as sets
@@ -71,14 +74,18 @@ def ring_iterator(n, start):
 # SimpleStrategy
 # ---------------------------------------------------------------------------------------------
 
-def simple_4x(ring, rf_all, start):
+def simple_4x(ring, rf_all, start, rf_full=None, full=None):
+    """full: optional dict filled with endpoint -> isFull (new Replica(ep, range, replicas.size() < rf.fullReplicas))"""
     replicas = []
+    rf_full = rf_all if rf_full is None else rf_full
     it = ring_iterator(len(ring), start)
     for idx in it:
         if not len(replicas) < rf_all:
             break
         ep = ring[idx][1]
         if ep not in replicas:
+            if full is not None:
+                full[ep] = len(replicas) < rf_full
             replicas.append(ep)
     return replicas
 
@@ -112,25 +119,32 @@ def _dc_endpoints(ring, topology):
 
 
 class _DatacenterEndpoints(object):
-    def __init__(self, rf_all, rack_count, node_count, replicas, racks):
+    def __init__(self, rf_all, rack_count, node_count, replicas, racks, rf_transient=0, full=None):
         self.replicas = replicas        # shared, ordered
         self.racks = racks              # shared set of (dc, rack)
+        self.full = full if full is not None else {}        # shared: endpoint -> isFull
         self.rf_left = min(rf_all, node_count)
         self.acceptable_rack_repeats = rf_all - rack_count
+        # if we have fewer replicas than rf calls for, reduce transients accordingly
+        reduce_transients = rf_all - self.rf_left
+        self.transients = max(rf_transient - reduce_transients, 0)
 
     def add_endpoint_and_check_if_done(self, ep, location):
         if self.done():
             return False
         if ep in self.replicas:
             return False                # cannot repeat a node
+        is_full = self.rf_left > self.transients     # new Replica(ep, range, rfLeft > transients)
         if location not in self.racks:
             self.racks.add(location)    # new rack
             self.rf_left -= 1
             self.replicas.append(ep)
+            self.full[ep] = is_full
             return self.done()
         if self.acceptable_rack_repeats <= 0:
             return False                # there must be rf_left distinct racks left
         self.replicas.append(ep)
+        self.full[ep] = is_full
         self.acceptable_rack_repeats -= 1
         self.rf_left -= 1
         return self.done()
@@ -140,10 +154,13 @@ class _DatacenterEndpoints(object):
         return self.rf_left == 0
 
 
-def nts_4x(ring, topology, dc_rf, start, pre=None):
-    """dc_rf: dict dc -> total replicas (allReplicas); pre: cached _dc_endpoints(ring, topology)"""
+def nts_4x(ring, topology, dc_rf, start, pre=None, dc_transient=None, full=None):
+    """dc_rf: dict dc -> total replicas (allReplicas); dc_transient: dict dc -> transient replicas; pre: cached
+    _dc_endpoints(ring, topology); full: optional dict filled with endpoint -> isFull"""
     replicas = []
     seen_racks = set()
+    dc_transient = dc_transient or {}
+    full = full if full is not None else {}
     all_eps, racks = pre or _dc_endpoints(ring, topology)
     dcs = {}
     dcs_to_fill = 0
@@ -151,7 +168,8 @@ def nts_4x(ring, topology, dc_rf, start, pre=None):
         node_count = len(all_eps.get(dc, ()))
         if rf <= 0 or node_count <= 0:
             continue
-        dcs[dc] = _DatacenterEndpoints(rf, len(racks.get(dc, ())), node_count, replicas, seen_racks)
+        dcs[dc] = _DatacenterEndpoints(rf, len(racks.get(dc, ())), node_count, replicas, seen_racks,
+                                       dc_transient.get(dc, 0), full)
         dcs_to_fill += 1
     for idx in ring_iterator(len(ring), start):
         if not dcs_to_fill > 0:
@@ -213,25 +231,40 @@ def _short(strategy_class):
     return strategy_class.rsplit(".", 1)[-1]
 
 
-def natural_endpoints_at(ring, topology, strategy_class, options, start, pre=None):
-    """replicas for the range ending at ring index `start` (pre: optional cached _dc_endpoints(ring, topology))"""
+def natural_replicas_at(ring, topology, strategy_class, options, start, pre=None):
+    """[(endpoint, is_full)] in Cassandra 4 placement order for the range ending at ring index `start`.
+    The set of all endpoints is cross-checked against the 2.x formulation (which knows no transient replicas)."""
     name = _short(strategy_class)
     if not ring:
         return []
+    full = {}
     if name == "SimpleStrategy":
-        rf_all, _t = parse_rf(options["replication_factor"])
-        a = simple_4x(ring, rf_all, start)
+        rf_all, rf_t = parse_rf(options["replication_factor"])
+        a = simple_4x(ring, rf_all, start, rf_all - rf_t, full)
         b = simple_2x(ring, rf_all, start)
     elif name == "NetworkTopologyStrategy":
-        dc_rf = dict((str(dc), parse_rf(v)[0]) for dc, v in options.items() if dc != "class")
-        a = nts_4x(ring, topology, dc_rf, start, pre)
+        parsed = dict((str(dc), parse_rf(v)) for dc, v in options.items() if dc != "class")
+        dc_rf = dict((dc, p[0]) for dc, p in parsed.items())
+        dc_t = dict((dc, p[1]) for dc, p in parsed.items())
+        a = nts_4x(ring, topology, dc_rf, start, pre, dc_t, full)
         b = nts_2x(ring, topology, dc_rf, start, pre)
     else:
         raise ValueError("no reference for strategy %r" % (strategy_class,))
     if set(a) != set(b) or len(set(a)) != len(a) or len(set(b)) != len(b):
         raise ReferenceDisagreement("4.x formulation %r vs 2.x formulation %r for ring=%r topology=%r %s %r start=%d" % (
             a, b, ring, topology, name, options, start))
-    return a
+    return [(ep, full[ep]) for ep in a]
+
+
+def natural_endpoints_at(ring, topology, strategy_class, options, start, pre=None):
+    """all natural replicas (full and transient) for the range ending at ring index `start`
+    (pre: optional cached _dc_endpoints(ring, topology))"""
+    return [ep for ep, _f in natural_replicas_at(ring, topology, strategy_class, options, start, pre)]
+
+
+def full_endpoints_at(ring, topology, strategy_class, options, start, pre=None):
+    """the FULL replicas only (what a token-aware client routes to); equals natural_endpoints_at without transient replication"""
+    return [ep for ep, f in natural_replicas_at(ring, topology, strategy_class, options, start, pre) if f]
 
 
 def natural_endpoints(ring, topology, strategy_class, options, token):
@@ -239,3 +272,10 @@ def natural_endpoints(ring, topology, strategy_class, options, token):
     if not ring:
         return []
     return natural_endpoints_at(ring, topology, strategy_class, options, first_token_index(tokens, token))
+
+
+def full_endpoints(ring, topology, strategy_class, options, token):
+    tokens = [t for t, _ep in ring]
+    if not ring:
+        return []
+    return full_endpoints_at(ring, topology, strategy_class, options, first_token_index(tokens, token))
